@@ -123,6 +123,14 @@ func (v *PacketDslVisitorImpl) VisitPacket(ctx *gen.PacketContext) interface{} {
 			if option.Value().STRING() != nil {
 				value = strings.Trim(value, "\"")
 			}
+			if option.Value().Type_() != nil {
+				// type aliases (uint16 / u16 ...) mean the same
+				value = model.BasicFieldAttribute{Type: value}.GetType()
+			}
+			if value == "'\\x00'" {
+				// the NUL pad character is kept as for padding attributes
+				value = "'\x00'"
+			}
 			// Store option in the map
 			v.BinModel.AddOption(name, value, option.GetStart().GetLine(), option.GetStart().GetTokenSource().GetCharPositionInLine())
 		}
